@@ -84,6 +84,11 @@ pub fn enabled<P: Proto>(w: &ClientWorld<P>, cfg: &Cfg) -> Vec<(CAct, u8)> {
             }
             if cfg.throttle_ms > 0 && (held.pending_pubs.len() + held.pending_rels.len() + held.pending_other) > 0 {
                 v.push((CAct::T(cfg.throttle_ms as u32), 0));
+                if connected && healthy && cfg.prop != "C07" {
+                    // traffic from the broker while the replay waits in its throttle pause
+                    // (another arm of the event loop's select wins over the replay)
+                    v.push((CAct::B(inbound(0, 0, 900 + sent as u32)), 0));
+                }
             }
             if cfg.keep_alive_s > 0 && cfg.variant == 5 && connected && healthy {
                 // keep-alive running next to the publish flows: a collision that outlives
@@ -355,9 +360,9 @@ fn plans(prop: &str, tier: Tier) -> Vec<Plan> {
                     c.variant = variant;
                     let d = if q { vec![6, 6, 6] } else { vec![9, 9, 8, 7] };
                     v.push(Plan { cfg: c.clone(), depth_by_devs: d });
-                    if !q && limit == 2 && (variant == 0 || variant == 2) {
+                    if limit == 2 && (variant == 0 || (!q && variant == 2)) {
                         c.throttle_ms = 1;
-                        v.push(Plan { cfg: c, depth_by_devs: vec![8, 8, 7] });
+                        v.push(Plan { cfg: c, depth_by_devs: if q { vec![6, 6] } else { vec![8, 8, 7] } });
                     }
                 }
             }
